@@ -6,9 +6,9 @@
             {"op":"int","tokens":[s]}                      -> {"ints":[n|null]}
 -/
 import Kapture.Base.DriverCore
-import Kapture.Model.C01
+import Kapture.Model.C01Typed
 
-open Lean Kapture Kapture.Driver Kapture.Csv Kapture.C01
+open Lean Kapture Kapture.Driver Kapture.Csv Kapture.C01 Kapture.Gen.RecordSchemas
 
 def U (s : Str) : String := String.ofList s
 def strsOf (j : Json) : List Str := ((getArr? j).getD #[]).toList.filterMap (fun x => (getStr? x).map S)
@@ -63,6 +63,62 @@ def parseTData (j : Json) : TData :=
           | _ => false), rowsOf (nth x 1))
       | none => none }
 
+/-- the driver's floats are the tokens themselves: a token counts as a float when Python's float() takes it (digits, sign,
+  point, exponent, inf / nan spellings, digit-group underscores) -/
+def floatLike (s : Str) : Bool :=
+  !s.isEmpty && s.all (fun ch => ch.isDigit || "+-._eEinfatyINFATY".toList.contains ch) &&
+    (match s.head? with
+     | some ch => ch.isDigit || "+-.inIN".toList.contains ch
+     | none => false)
+
+def tokenCodec : Codec Str := { render := id, parse := fun s => if floatLike s then some s else none }
+
+def errJson : DecodeErr → Json
+  | DecodeErr.arity => Json.arr #[Json.str "error", Json.str "arity"]
+  | DecodeErr.value => Json.arr #[Json.str "error", Json.str "value"]
+
+def toksJson (l : List Str) : Json := Json.arr (l.map (fun f => Json.str (U f))).toArray
+
+def poseJson (p : Pose Str) : List Json :=
+  [match p.r with
+   | some (w, x, y, z) => toksJson [w, x, y, z]
+   | none => Json.null,
+   match p.t with
+   | some (x, y, z) => toksJson [x, y, z]
+   | none => Json.null]
+
+def valTok : Val Str → Str
+  | Val.int i => showInt i
+  | Val.flt x => x
+  | Val.str s => s
+
+def decodeRow (kind : String) (file : String) (row : List Str) : Json :=
+  let ok (l : List Json) : Json := Json.arr (Json.str "ok" :: l).toArray
+  match kind with
+  | "traj" => match decodeTrajRow tokenCodec row with
+    | Except.ok (ts, dev, p) => ok ([intJson ts, Json.str (U dev)] ++ poseJson p)
+    | Except.error e => errJson e
+  | "rig" => match decodeRigRow tokenCodec row with
+    | Except.ok (rig, dev, p) => ok ([Json.str (U rig), Json.str (U dev)] ++ poseJson p)
+    | Except.error e => errJson e
+  | "generic" => match decodeRecordRow tokenCodec (schemaOf file) row with
+    | Except.ok (ts, dev, vs) => ok [intJson ts, Json.str (U dev), toksJson (vs.map valTok)]
+    | Except.error e => errJson e
+  | "wifi" => match decodeSignalRow tokenCodec (wifiSignal.map (·.2)) row with
+    | Except.ok (ts, dev, addr, vs) => ok [intJson ts, Json.str (U dev), Json.str (U addr), toksJson (vs.map valTok)]
+    | Except.error e => errJson e
+  | "bluetooth" => match decodeSignalRow tokenCodec (bluetoothSignal.map (·.2)) row with
+    | Except.ok (ts, dev, addr, vs) => ok [intJson ts, Json.str (U dev), Json.str (U addr), toksJson (vs.map valTok)]
+    | Except.error e => errJson e
+  | "filerec" => match decodeFileRecordRow row with
+    | Except.ok (ts, dev, p) => ok [intJson ts, Json.str (U dev), Json.str (U p)]
+    | Except.error e => errJson e
+  | "obs" => match decodeObservationRow row with
+    | Except.ok (idx, kt, ps) => ok [intJson idx, Json.str (U kt),
+        Json.arr (ps.map (fun p => Json.arr #[Json.str (U p.1), intJson p.2])).toArray]
+    | Except.error e => errJson e
+  | _ => err "bad-kind"
+
 def handle (j : Json) : Json :=
   match (field? j "op").bind getStr? with
   | some "save" =>
@@ -71,6 +127,12 @@ def handle (j : Json) : Json :=
   | some "parse" =>
     let rows := parseFile (strOf ((field? j "text").getD Json.null))
     Json.mkObj [("rows", Json.arr (rows.map (fun r => Json.arr (r.map (fun f => Json.str (U f))).toArray)).toArray)]
+  | some "decode" =>
+    -- the typed layer: every data row of a written file decoded the way its reader does
+    let rows := parseFile (strOf ((field? j "text").getD Json.null))
+    let kind := ((field? j "kind").bind getStr?).getD ""
+    let file := ((field? j "file").bind getStr?).getD ""
+    Json.mkObj [("decoded", Json.arr (rows.map (decodeRow kind file)).toArray)]
   | some "spaces" => Json.mkObj [("codes", Json.arr (pySpaceCodes.map (fun (n : Nat) => intJson (Int.ofNat n))).toArray)]
   | some "int" =>
     Json.mkObj [("ints", Json.arr ((strsOf ((field? j "tokens").getD Json.null)).map (fun t =>
